@@ -1087,9 +1087,19 @@ def cases(tier):
                 out.append(("case_class_symbolic", {"H": 2, "W": 3, "K": 3, "S": 2, "preload": pre, "scales": list(sc)}, dict(UF, split=2)))
             for reg in (True, False):
                 out.append(("case_inversion_real", {"H": 2, "W": 2, "K": 3, "S1": 2, "S2": 1, "preload": pre, "reg": reg}, UF))
-        for (K, S1, S2) in ((2, 2, 1), (3, 1, 0), (3, 2, 2), (4, 2, 1)):
+        for (K, S1, S2) in ((2, 2, 1), (3, 1, 0), (3, 2, 2), (4, 2, 1), (3, 3, 1), (4, 2, 2), (5, 1, 1)):
             for reg in (True, False):
                 out.append(("case_inversion_stub", {"K": K, "S1": S1, "S2": S2, "reg": reg}, dict(NRA, timeout_ms=90000)))
+        # deeper bounds (same obligations): next sizes up, more scale pairs / parameter splits
+        for (P, K, S) in ((4, 3, 3), (5, 2, 2), (3, 4, 2), (5, 3, 2)):
+            out.append(("case_kernels", {"P": P, "K": K, "S": S}, UF))
+        for pre in (True, False):
+            for gid in (0, 3):
+                out.append(("case_class_concrete", {"H": 2, "W": 4, "gid": gid, "S": 2, "preload": pre}, {"split": 3}))
+            out.append(("case_class_symbolic", {"H": 3, "W": 2, "K": 3, "S": 2, "preload": pre, "scales": [0.5, 2.0]}, dict(UF, split=2)))
+            out.append(("case_class_symbolic", {"H": 2, "W": 3, "K": 3, "S": 2, "preload": pre, "scales": [3.0, 1.0]}, dict(UF, split=2)))
+            out.append(("case_inversion_real", {"H": 2, "W": 2, "K": 3, "S1": 1, "S2": 2, "preload": pre, "reg": True, "scales": [0.25, 0.25]}, UF))
+            out.append(("case_inversion_real", {"H": 2, "W": 3, "K": 2, "S1": 1, "S2": 1, "preload": pre, "reg": True}, dict(UF, split=2)))
     return out
 
 
